@@ -26,6 +26,16 @@ CHECKS = {
         ref="DESIGN.md 6/C02",
         note=NOTE + "the barycentric moment formula is adopted as the definition of the exact integral.",
         technique="Lean 4 proof (per-element identities + induction over elements) tied by symbolic tracing and differential driver"),
+    "C06": dict(
+        text="Theorems for every mesh, vertex function and element field: the triangle gradient equals the gradient of the linear "
+             "interpolant (characterised by its defining equations; any winding), is tangent, and is the in-plane projection of a for "
+             "affine data; the tetra gradient equals a for either element orientation; sum_i f_i div(X)_i = -sum meas X.grad f "
+             "(triangles and tetrahedra of mixed orientation), div(grad f) = -A f, entries of div sum to zero, both triangle "
+             "divergences coincide. All five kernels are re-traced from diffgeo.py each run (tetra: both orientation branches) and "
+             "bridged by proof; dispatch and whole-mesh outputs compared differentially.",
+        ref="DESIGN.md 6/C06",
+        note=NOTE + "theorems hold under the complement of the kernels' own guards.",
+        technique="Lean 4 proof (vector identities + induction over elements) tied by concolic tracing of the NumPy kernels and differential driver"),
 }
 
 NOT_YET = {}
